@@ -243,6 +243,19 @@ func (p *Prog) CursorCheck(spec CursorSpec) *CursorResult {
 						if eofCall != nil && f.Cond == eofCall {
 							ns.checked = !f.Val
 						}
+						// a stored short-circuit condition (`ended := eof() || cur() == ')'`; `if !ended`): the facts of
+						// the edge include the end test it was built from, provided the index has not moved since
+						if eofCall == nil || f.Cond != eofCall {
+							for _, ef := range FactsOnEdge(b, s) {
+								call, ok := ef.Cond.(*ssa.Call)
+								if !ok || CallName(call) != spec.EOF || ef.Val || call.Parent() != fn {
+									continue
+								}
+								if unmodifiedSince(call, b, isPosAddr, modifies) {
+									ns.checked = true
+								}
+							}
+						}
 						if bo, ok := f.Cond.(*ssa.BinOp); ok && (bo.Op == token.EQL || bo.Op == token.NEQ) && (bo.Op == token.EQL) == f.Val {
 							// the position equals a saved one: the state of the point it was saved at
 							for _, pair := range [][2]ssa.Value{{bo.X, bo.Y}, {bo.Y, bo.X}} {
@@ -323,4 +336,41 @@ func (p *Prog) CursorCheck(spec CursorSpec) *CursorResult {
 		})
 	}
 	return res
+}
+
+// unmodifiedSince: on the dominator chain from block b back to the block of the
+// end-test call, nothing stores the index or calls a method that does.
+func unmodifiedSince(call *ssa.Call, b *ssa.BasicBlock, isPosAddr func(ssa.Value) bool, modifies map[*ssa.Function]bool) bool {
+	changes := func(in ssa.Instruction) bool {
+		if st, ok := in.(*ssa.Store); ok && isPosAddr(st.Addr) {
+			return true
+		}
+		if c, ok := in.(ssa.CallInstruction); ok {
+			if cal := StaticCallee(c); cal != nil && modifies[cal] {
+				return true
+			}
+		}
+		return false
+	}
+	for x := b; x != nil; x = x.Idom() {
+		if x == call.Block() {
+			after := false
+			for _, in := range x.Instrs {
+				if in == ssa.Instruction(call) {
+					after = true
+					continue
+				}
+				if after && changes(in) {
+					return false
+				}
+			}
+			return true
+		}
+		for _, in := range x.Instrs {
+			if changes(in) {
+				return false
+			}
+		}
+	}
+	return false
 }
